@@ -410,7 +410,15 @@ class SelfRewriter(ast.NodeTransformer):
             return ast.copy_location(ast.Name(id='self_' + node.attr, ctx=ast.Load()), node)
         return self.generic_visit(node)
 
+    def visit_Subscript(self, node):
+        # privacy_calibrator.ana_gaussian_mech(eps, delta)['sigma'] -> opaque parameter sigma_ana
+        if isinstance(node.value, ast.Call) and 'ana_gaussian_mech' in ast.unparse(node.value.func):
+            return ast.copy_location(ast.Name(id='sigma_ana', ctx=ast.Load()), node)
+        return self.generic_visit(node)
+
     def visit_Call(self, node):
+        if isinstance(node.func, ast.Attribute) and node.func.attr == 'max' and not node.args and isinstance(node.func.value, ast.Name):
+            return ast.copy_location(ast.Name(id=node.func.value.id + '_max', ctx=ast.Load()), node)
         if isinstance(node.func, ast.Name) and node.func.id == 'len' and len(node.args) == 1:
             a = node.args[0]
             nm = 'len_' + ''.join(ch if ch.isalnum() else '_' for ch in ast.unparse(a))
@@ -426,7 +434,7 @@ def all_nodes(fn):
 def slice_assign(fn, var, nth=0):
     hits = []
     for n in all_nodes(fn):
-        if isinstance(n, ast.Assign) and len(n.targets) == 1 and isinstance(n.targets[0], ast.Name) and n.targets[0].id == var:
+        if isinstance(n, ast.Assign) and any(isinstance(t, ast.Name) and t.id == var for t in n.targets):
             hits.append((n.lineno, n.value))
         if isinstance(n, ast.AugAssign) and isinstance(n.target, ast.Name) and n.target.id == var:
             hits.append((n.lineno, ast.BinOp(left=ast.Name(id=var, ctx=ast.Load()), op=n.op, right=n.value)))
@@ -457,7 +465,7 @@ def slice_callarg(fn, callee, arg, nth=0):
     for kw in c.keywords:
         if kw.arg == arg:
             return kw.value, len(hits)
-    raise Unsupported(f'call to {callee} has no keyword {arg} (absent keyword = default)')
+    raise KeyError(arg)
 
 
 SLICES = None  # loaded from tools/slices.json
@@ -475,7 +483,40 @@ def translate_slices(repo, real, spec):
         if item['kind'] == 'assign':
             e, cnt = slice_assign(fn, item['var'], item.get('nth', 0))
         elif item['kind'] == 'callarg':
-            e, cnt = slice_callarg(fn, item['callee'], item['arg'], item.get('nth', 0))
+            try:
+                e, cnt = slice_callarg(fn, item['callee'], item['arg'], item.get('nth', 0))
+            except KeyError:
+                if 'default' not in item:
+                    raise Unsupported(f"{item['name']}: call to {item['callee']} passes no {item['arg']}")
+                e, cnt = ast.parse(item['default'], mode='eval').body, item.get('expect_count', 1)
+                if 'expect_count' in item:
+                    cnt = item['expect_count']
+        elif item['kind'] == 'if_test':
+            ifs = sorted([n for n in all_nodes(fn) if isinstance(n, ast.If)], key=lambda n: n.lineno)
+            if item.get('nth', 0) >= len(ifs):
+                raise Unsupported(f"{item['name']}: if #{item.get('nth', 0)} not found")
+            t = SelfRewriter().visit(ast.fix_missing_locations(ast.parse(ast.unparse(ifs[item.get('nth', 0)].test), mode='eval').body))
+            params = item['params']
+            extra = [p for p in free_names(t) if p not in params]
+            if extra:
+                raise Unsupported(f"{item['name']}: unexpected free variables {extra}")
+            pr = Printer(real)
+            sig = ' '.join(f'({p} : {pr.T})' for p in params)
+            src = ast.unparse(t).replace('-/', '- /')
+            ty = 'Prop' if real else 'Bool'
+            out.append(f'/-- `{item["file"]}` `{item["func"]}` branch condition: `{src}` -/\ndef {item["name"]} {sig} : {ty} :=\n  {pr.cond(t)}\n')
+            names.append(item['name'])
+            continue
+        elif item['kind'] == 'function':
+            fn2 = SelfRewriter().visit(ast.fix_missing_locations(ast.parse(ast.unparse(fn)).body[0]))
+            fn2.args.args = [a for a in fn2.args.args if a.arg != 'self']
+            extra = item.get('extra_params', [])
+            fn2.args.args = [ast.arg(arg=x) for x in extra] + fn2.args.args
+            fn2.name = item['name']
+            pr = Printer(real)
+            out.append(f'/-- `{item["file"]}` `{item["func"]}` translated whole -/\n' + pr.function(fn2, bool_params=item.get('bool_params', ())))
+            names.append(item['name'])
+            continue
         elif item['kind'] == 'count_assign':
             _, cnt = slice_assign(fn, item['var'], 0)
             e = ast.Constant(value=cnt)
@@ -485,6 +526,10 @@ def translate_slices(repo, real, spec):
             e = ast.Constant(value=cnt)
         else:
             raise Unsupported('slice kind ' + item['kind'])
+        if 'tuple_index' in item:
+            if not isinstance(e, ast.Tuple) or item['tuple_index'] >= len(e.elts):
+                raise Unsupported(f"{item['name']}: expected a tuple argument")
+            e = e.elts[item['tuple_index']]
         if 'expect_count' in item and cnt != item['expect_count']:
             raise Unsupported(f"{item['name']}: expected {item['expect_count']} occurrence(s), found {cnt}")
         e = SelfRewriter().visit(ast.fix_missing_locations(ast.parse(ast.unparse(e), mode='eval').body))
@@ -501,6 +546,16 @@ def translate_slices(repo, real, spec):
         sig = ' '.join(f'({p} : {"Bool" if p in bools else T})' for p in params)
         head = 'noncomputable def' if real else 'def'
         src = ast.unparse(e).replace('-/', '- /')
+        if item.get('result_bool'):
+            if isinstance(e, ast.Name) and e.id in bools:
+                body = e.id
+            elif isinstance(e, ast.Constant) and isinstance(e.value, bool):
+                body = 'true' if e.value else 'false'
+            else:
+                raise Unsupported(f"{item['name']}: Boolean argument of unsupported form {src}")
+            out.append(f'/-- `{item["file"]}` `{item["func"]}`: `{src}` -/\ndef {item["name"]} {sig} : Bool :=\n  {body}\n')
+            names.append(item['name'])
+            continue
         out.append(f'/-- `{item["file"]}` `{item["func"]}`: `{src}` -/\n{head} {item["name"]} {sig} : {T} :=\n  {pr.expr(e)}\n')
         names.append(item['name'])
     return '\n'.join(out), names
